@@ -222,8 +222,37 @@ def check_long(n, kind, sd):
             raise Violation(f'twin-not-a-permutation|long-{stage}', f'n={n} generator={kind} seed={sd}')
 
 
+def check_pool_prefetch(backend, sd, n=7):
+    """A seeded per-epoch reshuffle behind a prefetch on every backend (threads and the four process pools): epoch by
+    epoch the order of the equally seeded plain pipeline; the same for a copy() of a fresh build."""
+    import lazy_dataset
+
+    def plain():
+        return lazy_dataset.new(list(range(n))).shuffle(True, rng=np.random.RandomState(sd))
+
+    def behind():
+        return plain().prefetch(2, 2, backend=backend)
+    p = plain()
+    want = [list(p) for _ in range(3)]
+    for what, ds in (('prefetch', behind()), ('copy of prefetch', behind().copy())):
+        got = []
+        for _ in range(3):
+            vals, exc, _ = observe.take(lambda: ds, n + 3)
+            if exc is not None:
+                raise Violation(f'prefetch-raised|{backend}', f'backend={backend} seed={sd}: {observe.describe_exc(exc)}')
+            got.append(vals)
+        if got != want:
+            raise Violation(f'prefetch-differs|pool-{backend}',
+                            f'new(range({n})).shuffle(True, rng=RandomState({sd})) iterates {want} over three epochs; '
+                            f'the equally seeded pipeline behind .prefetch(2, 2, backend={backend!r}) ({what}) '
+                            f'iterates {got}')
+
+
 def replay(case):
     progcheck.setup_process()
+    if case.get('mode') == 'pool':
+        check_pool_prefetch(case['backend'], case['seed'])
+        return
     if case.get('mode') == 'long':
         check_long(case['n'], case['kind'], case['seed'])
         return
@@ -514,6 +543,21 @@ def run_shard(tier, idx, nshards, rec, known):
             if not known.match(v.sig):
                 o.violation = ({'mode': 'vars', 'cls': v.sig.split('|')[1].split('.')[0] if 'copy' in v.sig
                                 else None}, v.sig, v.detail)
+        outs.append(o)
+    if idx == 2 % nshards:
+        o = Outcome()
+        for be in ('t', 'thread', 'mp', 'dill_mp', 'multiprocessing', 'concurrent_mp'):
+            for sd in (0, 1):
+                case = {'mode': 'pool', 'backend': be, 'seed': sd}
+                try:
+                    check_pool_prefetch(be, sd)
+                except Violation as v:
+                    if not known.match(v.sig):
+                        o.violation = (case, v.sig, v.detail)
+                        break
+                rec.case(case, True, ['pool-prefetch:' + be], size=7)
+            if o.violation:
+                break
         outs.append(o)
     if idx == 1 % nshards:
         o = Outcome()
